@@ -19,7 +19,7 @@ while True:
     i += 1
 term = src[start:i + 1]
 hdr = src[:src.index("Definition cases")]
-body = hdr + "Definition c := %s.\nEval vm_compute in (ob_outcome (model_obs repaired c), ob_outcome (w_obs c)).\nEval vm_compute in (ob_log (model_obs repaired c)).\nEval vm_compute in (ob_log (w_obs c)).\nEval vm_compute in (ob_fields (model_obs repaired c)).\nEval vm_compute in (ob_fields (w_obs c)).\nEval vm_compute in (ob_lookups (model_obs repaired c)).\nEval vm_compute in (ob_lookups (w_obs c)).\nEval vm_compute in (ob_logafter (model_obs repaired c)).\nEval vm_compute in (ob_logafter (w_obs c)).\n" % term
+body = hdr + "Definition c := %s.\nEval vm_compute in (ob_outcome (model_obs repaired c), ob_outcome (w_obs c)).\nEval vm_compute in (ob_log (model_obs repaired c)).\nEval vm_compute in (ob_log (w_obs c)).\nEval vm_compute in (ob_fields (model_obs repaired c)).\nEval vm_compute in (ob_fields (w_obs c)).\nEval vm_compute in (ob_lookups (model_obs repaired c)).\nEval vm_compute in (ob_lookups (w_obs c)).\nEval vm_compute in (ob_logafter (model_obs repaired c)).\nEval vm_compute in (ob_logafter (w_obs c)).\nEval vm_compute in (ob_bulk (model_obs repaired c), ob_bulk (w_obs c)).\nEval vm_compute in (obs_eqb (model_obs repaired c) (w_obs c), failed_lookups_eqb (model_obs repaired c) (w_obs c), ops_eqb (model_obs repaired c) (w_obs c)).\n" % term
 f = os.path.join(work, "dbg.v")
 open(f, "w").write(body)
 verif = os.path.dirname(os.path.dirname(os.path.abspath(__file__)))
